@@ -977,6 +977,38 @@ func composeIdentity(c *Check, p *Program, dt dptType, g lenGuard) (bool, string
 			}
 		}
 	}
+	// an input bit is "looked at" by the decoder when some successful path reads it into the value or pins it:
+	// a position that carries information on one path is not a reserved position on another
+	readAny := map[string]bool{}
+	for _, up := range ups {
+		if o, ok := up.ret.(avOpaque); !ok || o.desc != "nil" {
+			continue
+		}
+		for k, v := range up.mem {
+			if !strings.HasPrefix(k, "out:") && !strings.Contains(k, ".") {
+				continue
+			}
+			var bv BV
+			switch x := v.(type) {
+			case avInt:
+				bv = x.bv
+			case avF:
+				bv = x.bv
+			case avBool:
+				if x.bitv != nil {
+					bv = BV{*x.bitv}
+				}
+			}
+			for _, b := range bv {
+				if b.K == bsrc || b.K == bnot {
+					readAny[fmt.Sprintf("%s#%d", b.Src, b.Idx)] = true
+				}
+			}
+		}
+		for k := range up.assume {
+			readAny[k] = true
+		}
+	}
 	for _, up := range ups {
 		// success paths only
 		if o, ok := up.ret.(avOpaque); !ok || o.desc != "nil" {
@@ -987,6 +1019,9 @@ func composeIdentity(c *Check, p *Program, dt dptType, g lenGuard) (bool, string
 		}
 		// decoded value
 		read := map[string]bool{}
+		for k := range readAny {
+			read[k] = true
+		}
 		var collect func(v AV)
 		collect = func(v AV) {
 			var bv BV
